@@ -1,6 +1,7 @@
 import HcipyVerif.Model.Proto
 import HcipyVerif.Model.Layer
 import HcipyVerif.Model.LayerHeap
+import HcipyVerif.Model.MultiLayer
 
 /-! Line-protocol front end of the C15 model.
 
@@ -25,6 +26,13 @@ hfin new int|gen|genshared nx ny vx vy cn2 L0 seed | hfin evolve t | reset b | s
         cells=N [shown=pos|cn2|L0|cx|cy after read]            (heap model with lazy noise and cached screen)
 hinf new int|gen|genshared nx ny dx dy vx vy cn2 L0 seed | hinf evolve t | evolveq t | reset b | set… | cdraw n
       → the `inf` answer of the view + caller= al= cells=
+elements 0|1 [h…]                                              → ok L2,P3/2,L0,… order=[2,0,…] sum=S   `calculate_propagators` for the layer heights (err index: no layer)
+atm new 0|1 [h…] | atm setlayers [h…] | atm setscint 0|1 | atm seth j h | atm prop | atm calc
+      → ok dirty=0|1 scint=0|1 el=L2,P3/2,…                    the `_dirty` flag and the element list of `MultiLayerAtmosphere`
+mla begin | mla addfin nx ny vx vy cn2 L0 seed | mla addinf nx ny dx dy vx vy cn2 L0 seed (→ ok n) | mla build |
+mla evolve t | mla reset | mla resetold | mla setcn2 T | mla setl0 l | mla direct j evolve t|reset b|setcn2 c|setl0 l|setvel vx vy
+      → ok|err value  t=T total=C ;; <fin answer | inf answer without pars/scr + scr=<hash of the symbolic screen>> ;; …
+atmphase λ [a…]                                                → ok Σ a_i/λ        one pixel of `MultiLayerAtmosphere.phase_for(λ)`
 ```
 -/
 namespace HcipyVerif.Driver.C15
@@ -35,6 +43,9 @@ structure St where
   inf : Option InfL := none
   hfin : Option (HFin × Bool) := none
   hinf : Option (HInf × Bool) := none
+  atm : Option Atm := none
+  specs : List Spec := []
+  mla : Option MLA := none
 
 def showV2 (v : V2) : String := s!"[{showRat v.1},{showRat v.2}]"
 
@@ -105,8 +116,141 @@ def parseWhere? (s : String) : Option Where :=
   if s == "left" then some .left else if s == "right" then some .right
   else if s == "top" then some .top else if s == "bottom" then some .bottom else none
 
+def showEl : El → String
+  | .layer j => s!"L{j}"
+  | .prop d => s!"P{showRat d}"
+
+def showEls (es : List El) : String := ",".intercalate (es.map showEl)
+
+def showAtm (A : Atm) : String := s!"ok dirty={b01 A.dirty} scint={b01 A.scint} el={showEls A.elements}"
+
+def atmOp (st : St) (o : AOp) : St × String :=
+  match st.atm with
+  | some A => let A := A.step o; ({ st with atm := some A }, showAtm A)
+  | none => (st, "bad-op")
+
+def parHash (p : Par) : Nat := p.cn2.num.natAbs * 31 + p.cn2.den * 17 + p.L0.num.natAbs * 13 + p.L0.den
+
+/-- a short fingerprint of the symbolic screen: start, history code, element, parameters and logged parameter changes of
+every sample, in place -/
+def symHash (l : List Sym) : Nat :=
+  l.foldl (fun h s =>
+    let q := s.plog.foldl (fun a e => (a * 1009 + e.1 * 7 + parHash e.2) % 2305843009213693951) (parHash s.par)
+    (h * 1000003 + (s.start * 7919 + s.hist * 104729 + s.j + 1 + q * 15485863)) % 2305843009213693951) 0
+
+/-- bookkeeping of the layer, and — from its `view`, what `phase_for` is a function of — a fingerprint of the screen -/
+def showAny (a : AnyL) (v : Sum (Rng × Par × V2) (List Sym × V2)) : String :=
+  (match a with
+   | .fin L => "F " ++ showFin L
+   | .inf L => "I " ++ showInfQ L) ++
+  (match v with
+   | .inl (n, p, c) => s!" shown={n.pos}|{showRat p.cn2}|{showRat p.L0}|{showRat c.1}|{showRat c.2}"
+   | .inr (scr, sub) => s!" scr={symHash scr} vsub={showV2 sub}")
+
+/-- the answer is printed from the `view` (for an operation: the one `MLA.screens` yields for it) -/
+def showMLA (A : MLA) (v : List (Sum (Rng × Par × V2) (List Sym × V2)) × Rat) (ok : Bool) : String :=
+  (if ok then "ok" else "err value") ++ s!" t={showRat v.2} total={showRat (totalCn2 A.layers)}" ++
+  String.join ((A.layers.zip v.1).map fun av => " ;; " ++ showAny av.1 av.2)
+
+def mlaOp (st : St) (o : MOp) (old : Bool := false) : St × String :=
+  match st.mla with
+  | some A =>
+    let ok := match o with
+      | .evolve t => (evolveAll t A.layers).2
+      | .direct j (.evolve t) => match A.layers[j]? with
+        | some a => (a.evolve? t).isSome
+        | none => false
+      | .direct j _ => j < A.layers.length
+      | _ => true
+    let A' := if old then A.stepOld o else A.step o
+    let v := if old then A'.view else (A.screens [o]).headD A'.view
+    ({ st with mla := some A' }, showMLA A' v ok)
+  | none => (st, "bad-op")
+
 def step (st : St) : List String → St × String
   | ["reset"] => ({}, "ok")
+  | ["elements", s, hs] =>
+    match parseBool? s, parseRatList? hs with
+    | some s, some hs =>
+      if hs.isEmpty then (st, "err index") else
+      let es := buildElements s hs
+      (st, s!"ok {showEls es} order={showNatList (layerOrder es)} sum={showRat (propSum es)}")
+    | _, _ => (st, "bad-op")
+  | ["atm", "new", s, hs] =>
+    match parseBool? s, parseRatList? hs with
+    | some s, some hs =>
+      if hs.isEmpty then (st, "err index") else let A := Atm.new hs s; ({ st with atm := some A }, showAtm A)
+    | _, _ => (st, "bad-op")
+  | ["atm", "setlayers", hs] =>
+    match parseRatList? hs with
+    | some hs => if hs.isEmpty then (st, "err index") else atmOp st (.setLayers hs)
+    | none => (st, "bad-op")
+  | ["atm", "setscint", b] =>
+    match parseBool? b with
+    | some b => atmOp st (.setScint b)
+    | none => (st, "bad-op")
+  | ["atm", "seth", j, h] =>
+    match st.atm, parseNat? j, parseRat? h with
+    | some A, some j, some h => if j < A.heights.length then atmOp st (.setHeight j h) else (st, "err index")
+    | _, _, _ => (st, "bad-op")
+  | ["atm", "prop"] => atmOp st .propagate
+  | ["atm", "calc"] => atmOp st .recalc
+  | ["mla", "begin"] => ({ st with specs := [], mla := none }, "ok 0")
+  | ["mla", "addfin", nx, ny, vx, vy, cn2, l0, seed] =>
+    match parseNat? nx, parseNat? ny, parseRat? vx, parseRat? vy, parseRat? cn2, parseRat? l0, parseNat? seed with
+    | some nx, some ny, some vx, some vy, some cn2, some l0, some seed =>
+      let sp := st.specs ++ [⟨false, nx, ny, (0, 0), (vx, vy), ⟨cn2, l0⟩, seed⟩]
+      ({ st with specs := sp }, s!"ok {sp.length}")
+    | _, _, _, _, _, _, _ => (st, "bad-op")
+  | ["mla", "addinf", nx, ny, dx, dy, vx, vy, cn2, l0, seed] =>
+    match parseNat? nx, parseNat? ny, parseRat? dx, parseRat? dy, parseRat? vx, parseRat? vy, parseRat? cn2,
+        parseRat? l0, parseNat? seed with
+    | some nx, some ny, some dx, some dy, some vx, some vy, some cn2, some l0, some seed =>
+      if dx = 0 || dy = 0 then (st, "bad-op") else
+      let sp := st.specs ++ [⟨true, nx, ny, (dx, dy), (vx, vy), ⟨cn2, l0⟩, seed⟩]
+      ({ st with specs := sp }, s!"ok {sp.length}")
+    | _, _, _, _, _, _, _, _, _ => (st, "bad-op")
+  | ["mla", "build"] =>
+    if st.specs.isEmpty then (st, "err index") else
+    let A := MLA.new st.specs; ({ st with mla := some A }, showMLA A A.view true)
+  | ["mla", "evolve", t] =>
+    match parseRat? t with
+    | some t => mlaOp st (.evolve t)
+    | none => (st, "bad-op")
+  | ["mla", "reset"] => mlaOp st .reset
+  | ["mla", "resetold"] => mlaOp st .reset true
+  | ["mla", "setcn2", c] =>
+    match st.mla, parseRat? c with
+    | some A, some c => if totalCn2 A.layers = 0 then (st, "err zero") else mlaOp st (.setCn2 c)
+    | _, _ => (st, "bad-op")
+  | ["mla", "setl0", l] =>
+    match parseRat? l with
+    | some l => mlaOp st (.setL0 l)
+    | none => (st, "bad-op")
+  | ["mla", "direct", j, "evolve", t] =>
+    match parseNat? j, parseRat? t with
+    | some j, some t => mlaOp st (.direct j (.evolve t))
+    | _, _ => (st, "bad-op")
+  | ["mla", "direct", j, "reset", b] =>
+    match parseNat? j, parseBool? b with
+    | some j, some b => mlaOp st (.direct j (.reset b))
+    | _, _ => (st, "bad-op")
+  | ["mla", "direct", j, "setcn2", c] =>
+    match parseNat? j, parseRat? c with
+    | some j, some c => mlaOp st (.direct j (.setCn2 c))
+    | _, _ => (st, "bad-op")
+  | ["mla", "direct", j, "setl0", c] =>
+    match parseNat? j, parseRat? c with
+    | some j, some c => mlaOp st (.direct j (.setL0 c))
+    | _, _ => (st, "bad-op")
+  | ["mla", "direct", j, "setvel", vx, vy] =>
+    match parseNat? j, parseRat? vx, parseRat? vy with
+    | some j, some vx, some vy => mlaOp st (.direct j (.setVel (vx, vy)))
+    | _, _, _ => (st, "bad-op")
+  | ["atmphase", l, as] =>
+    match parseRat? l, parseRatList? as with
+    | some l, some as => if l = 0 then (st, "err value") else (st, "ok " ++ showRat (atmPhase l as))
+    | _, _ => (st, "bad-op")
   | ["fin", "new", nx, ny, vx, vy, cn2, l0, seed] =>
     match parseNat? nx, parseNat? ny, parseRat? vx, parseRat? vy, parseRat? cn2, parseRat? l0, parseNat? seed with
     | some nx, some ny, some vx, some vy, some cn2, some l0, some seed =>
